@@ -54,6 +54,14 @@ def handle (name : String) (args impl : List String) : Option (Except String (St
         else if alloc ≤ memBound t bs.length then pure ("-", "ok")
         else pure ("-", s!"FAIL:allocated-{alloc}-bytes-for-{bs.length}-input-bytes-bound-{memBound t bs.length}")
       | _ => pure ("-", "FAIL:unexpected-observation"))
+  | "mk.flat" => some (do
+      match args with
+      | hn :: rest =>
+        let (t, rest) ← runP ty rest
+        let (v, _) ← runP val rest
+        let spec := "ok " ++ hex (htr (hashByName hn) t v)
+        pure ("-", if " ".intercalate impl == spec then "ok" else s!"FAIL:flat-root:impl={" ".intercalate impl}:spec={spec}")
+      | _ => throw "bad mk.flat args")
   | "conc" => some (pure ("-",
       if impl == ["ok", "same"] then "ok"
       else s!"FAIL:concurrent-run-differs-from-sequential:{" ".intercalate impl}"))
